@@ -10,9 +10,28 @@
 -/
 import GoSecs.Lemmas.Linktest
 import GoSecs.Gen.Funcs
+import GoSecs.Gen.Facts
 
 namespace GoSecs.Props.C19
 open GoSecs GoSecs.Linktest
+
+/-! ## Tie to the source (regenerated on every run): the "a reply is outstanding" input of rule 2 -/
+
+/-- The tracked calls of `sendWaitReply` that concern the in-flight gauge, in source order. -/
+def inflightOrder : List String :=
+  (Gen.callSites.filter (fun s => s.2.2.1 == "connection.sendWaitReply" &&
+      (s.2.2.2 == "c.writeFrame" || s.2.2.2 == "metrics.incDataMsgInflight" || s.2.2.2 == "metrics.decDataMsgInflight"))).map
+    (fun s => s.2.2.2)
+
+/-- **Gauge discipline** (call-site table regenerated from the Go AST): in `sendWaitReply` the in-flight gauge — what
+    suppression rule 2 and the liveness credit read — is raised at exactly one site, AFTER the frame write, and dropped
+    at exactly one site after that (the deferred decrement); no other function touches it. A send that never reached
+    the wire therefore cannot leave it raised. -/
+theorem inflight_gauge_order_gen :
+    inflightOrder = ["c.writeFrame", "metrics.incDataMsgInflight", "metrics.decDataMsgInflight"] ∧
+    (Gen.callSites.filter (fun s => (s.2.2.2 == "metrics.incDataMsgInflight" || s.2.2.2 == "metrics.decDataMsgInflight") &&
+        s.2.2.1 != "connection.sendWaitReply")) = [] := by
+  decide
 
 /-! ## Tie to the source (regenerated on every run) -/
 
